@@ -203,6 +203,9 @@ impl Rw {
         let full = segs.join("::");
         let mut best: Option<(usize, String)> = None;
         for (from, to) in &self.maps {
+            if to.ends_with("()") {
+                continue;
+            }
             let n = from.split("::").count();
             if n <= segs.len() && segs[..n].join("::") == *from {
                 if best.as_ref().map_or(true, |(bn, _)| n > *bn) {
@@ -392,10 +395,18 @@ impl VisitMut for Rw {
                 Some(parse_quote!(self.#id))
             }
             Expr::Path(p) if p.qself.is_none() => {
-                let mut path = p.path.clone();
-                self.map_path(&mut path);
-                p.path = path;
-                None
+                // a constant of a dependency may be re-rooted to a prelude *function call* (`A::B => f()`)
+                let full = p.path.segments.iter().map(|s| s.ident.to_string()).collect::<Vec<_>>().join("::");
+                if let Some((_, to)) = self.maps.iter().find(|(f, t)| *f == full && t.ends_with("()")) {
+                    let callee: Path = parse_str(to.trim_end_matches("()")).unwrap();
+                    self.log.push(format!("R8 constant {full} re-rooted to {to}"));
+                    Some(parse_quote!(#callee()))
+                } else {
+                    let mut path = p.path.clone();
+                    self.map_path(&mut path);
+                    p.path = path;
+                    None
+                }
             }
             Expr::Call(c) => {
                 let f = norm(&c.func.to_token_stream().to_string());
